@@ -80,6 +80,11 @@ func (e *Exec) evalSpecArgs(st *State, fn *ssa.Function, args []Value, assertMod
 	R := Or(alts...)
 	// definedness: each collected implication has the full path condition as antecedent
 	D := And(defs...)
+	if os.Getenv("GOVC_DEBUG") == "3" && e.discovery == 0 && fn.Name() == os.Getenv("GOVC_SPEC") {
+		for _, d := range defs {
+			fmt.Fprintf(os.Stderr, "SPECDEF %s: %s\n", fn.Name(), showTerm(d, dbgDepth()))
+		}
+	}
 	if assertMode {
 		return And(D, R)
 	}
@@ -166,7 +171,7 @@ func (e *Exec) resolveAssign(st *State, fn *ssa.Function, params map[string]Valu
 		// every object of the named type of this package: any(chunkStream)
 		tn := strings.TrimSuffix(strings.TrimPrefix(path, "any("), ")")
 		pk := ""
-		if p := fn.Package(); p != nil {
+		if p := fn.Package(); p != nil && !strings.Contains(tn, ".") { // any(pkg.Type) names a type of another package
 			pk = p.Pkg.Name() + "."
 		}
 		return assignEntry{prefix: pk + tn, ref: nil, text: path, whole: true}
@@ -414,9 +419,11 @@ func (e *Exec) callContract(st *State, fr *Frame, sp *FnSpec, fn *ssa.Function, 
 			if f == name || f == fmt.Sprintf("ret%d", i) {
 				switch x := v.(type) {
 				case *PtrV:
-					st.Assume(IntLe(oldTop, ptrToTerm(x)))
+					st.Assume(Or(Eq(ptrToTerm(x), IntConst(0)), IntLe(oldTop, ptrToTerm(x))))
 				case *SliceV:
 					st.Assume(Or(Eq(x.Cap, BVConst(0, 64)), IntLe(oldTop, x.Arr)))
+				case *IfaceV:
+					st.Assume(Or(Eq(x.Tid, IntConst(0)), IntLe(oldTop, x.Ref)))
 				}
 			}
 		}
@@ -427,6 +434,14 @@ func (e *Exec) callContract(st *State, fr *Frame, sp *FnSpec, fn *ssa.Function, 
 	e.oldState = pre
 	defer func() { e.oldState = savedOld }()
 	e.freshBase = oldTop
+	for _, c := range sp.AssumedEnsures {
+		e.note("ASSUMED (not proved): postcondition " + c.Name + " of " + sp.Target)
+		t := e.evalSpec(st, cf, c, env, false)
+		if os.Getenv("GOVC_DEBUG") == "4" && e.discovery == 0 {
+			fmt.Fprintf(os.Stderr, "ASSUME(assumed) %s.%s = %s\n", sp.Target, c.Name, showTerm(t, dbgDepth()))
+		}
+		st.Assume(t)
+	}
 	for _, c := range sp.GhostEnsures {
 		e.note("GHOST DEFINITION: " + c.Name + " defines how " + sp.Target + " updates specification-only state (assumed at call sites, nothing to prove)")
 		st.Assume(e.evalSpec(st, cf, c, env, false))
@@ -650,6 +665,27 @@ func (e *Exec) VerifyFunction(sp *FnSpec, prop string) (err error) {
 		if panicCond != nil {
 			e.obligeNamed(o.st, e.curFn+"#panics_iff.returns-only-if-not", "ensures", sp.PanicsIff.Labels, sp.Pos, Not(panicCond))
 		}
+		// results declared fresh: nil, or allocated during the call (callers assume exactly this)
+		for i, r := range o.results {
+			name := fn.Signature.Results().At(i).Name()
+			for _, f := range sp.Fresh {
+				if f != name && f != fmt.Sprintf("ret%d", i) {
+					continue
+				}
+				var goal *Term
+				switch x := r.(type) {
+				case *PtrV:
+					goal = Or(Eq(ptrToTerm(x), IntConst(0)), IntLe(e.topEntry, ptrToTerm(x)))
+				case *SliceV:
+					goal = Or(Eq(x.Cap, BVConst(0, 64)), IntLe(e.topEntry, x.Arr))
+				case *IfaceV:
+					goal = Or(Eq(x.Tid, IntConst(0)), IntLe(e.topEntry, x.Ref))
+				}
+				if goal != nil {
+					e.obligeNamed(o.st, fmt.Sprintf("%s#fresh.%s", e.curFn, f), "ensures", nil, sp.Pos, goal)
+				}
+			}
+		}
 		if sp.Lemma {
 			for i, r := range o.results {
 				if t, ok := r.(*Term); ok && t.Sort == SBool {
@@ -663,6 +699,27 @@ func (e *Exec) VerifyFunction(sp *FnSpec, prop string) (err error) {
 			}
 			t := e.evalSpec(o.st, fr, c, env, true)
 			e.obligeNamed(o.st, fmt.Sprintf("%s#ensures.%s", e.curFn, strings.Join(c.Labels, ",")), "ensures", c.Labels, sp.Pos, t)
+		}
+	}
+	if sp.Pure && len(outs) > 0 {
+		// a pure function may only read the heap components it declares (its callers treat it as a function of those)
+		bad := map[string]bool{}
+		for _, o := range outs {
+			for k := range o.st.heaps {
+				if strings.HasPrefix(k, "ghost:") || strings.HasPrefix(k, "box:") || strings.HasPrefix(k, "cell:") || strings.HasPrefix(k, "G:") || strings.HasSuffix(k, ".$held") || readsCovers(sp.Reads, k) {
+					continue
+				}
+				if _, atEntry := fr.entry.heaps[k]; atEntry && fr.entry.heaps[k] == o.st.heaps[k] && !o.st.written[k] {
+					// present since before the call and never touched by it (package initialisers)
+				}
+				bad[k] = true
+			}
+		}
+		for k := range bad {
+			if _, preset := e.initialState().heaps[k]; preset {
+				continue // set up by the package initialisers, not by this call
+			}
+			e.obligeNamed(outs[0].st, e.curFn+"#reads."+k, "reads", nil, sp.Pos, False)
 		}
 	}
 	e.returns = nret
